@@ -32,6 +32,7 @@ type StreamCfg struct {
 	Straddle     bool // spec-legal sections continued in the next payload_unit_start packet
 	TypedGarbage bool // descriptors with typed tags and arbitrary bodies (hostile inputs only)
 	MidPCR       bool // PES units whose later packets carry PCRs as well
+	HugePES      bool // one video unit of more than a thousand packets (a large frame)
 }
 
 // typedTags are the descriptor tags the library has typed decoders for.
@@ -93,7 +94,11 @@ func genTime(r *core.PRNG) int64 { return 63072000 + int64(r.Intn(2050000000)) }
 func genSection(r *core.PRNG, kind string, tag int, pat *refts.PAT, pmt *refts.PMT, big bool) refts.Section {
 	for try := 0; ; try++ {
 		s := genSection1(r, kind, tag, pat, pmt, big && try < 8)
-		if len(s.Encode()) <= 1024 {
+		limit := 1024
+		if kind == "EIT" {
+			limit = 4096 // EN 300 468 5.1.1: EIT sections may be as long as 4096 bytes
+		}
+		if len(s.Encode()) <= limit {
 			return s
 		}
 	}
@@ -143,6 +148,16 @@ func genSection1(r *core.PRNG, kind string, tag int, pat *refts.PAT, pmt *refts.
 		n := r.Pick(1, 4, 2, 1) * mul
 		for i := 0; i < n; i++ {
 			t.Events = append(t.Events, refts.EITEvent{ID: uint16(r.Intn(65536)), Start: genTime(r), DurSecs: r.Intn(100*3600 - 1), Running: uint8(r.Intn(8)), FreeCA: r.Bool(), Descs: genDescs(r, 30)})
+		}
+		if big && !typedGarbage && r.Chance(1, 3) {
+			// one event with a descriptor loop longer than 1023 bytes (the loop length is a 12-bit field)
+			var ds []refts.Desc
+			for k, nd := 0, r.Range(5, 9); k < nd; k++ {
+				ds = append(ds, refts.Desc{Tag: uint8(r.Range(0x80, 0xfe)), Data: r.Bytes(r.Range(205, 250))})
+			}
+			at := r.Intn(len(t.Events) + 1)
+			ev := refts.EITEvent{ID: uint16(r.Intn(65536)), Start: genTime(r), DurSecs: r.Intn(3600), Running: uint8(r.Intn(8)), Descs: ds}
+			t.Events = append(t.Events[:at:at], append([]refts.EITEvent{ev}, t.Events[at:]...)...)
 		}
 		s.EIT = t
 	case "TDT":
@@ -381,6 +396,7 @@ func GenModel(r *core.PRNG, cfg StreamCfg) *refts.Model {
 			m.Streams = append(m.Streams, s)
 		}
 	}
+	hugeDone := false
 	for _, e := range esPIDs {
 		s := refts.Stream{PID: e, Kind: "PES", CC0: uint8(r.Intn(16))}
 		n := units()
@@ -405,6 +421,12 @@ func GenModel(r *core.PRNG, cfg StreamCfg) *refts.Model {
 			}
 			if cfg.BigPES && r.Chance(1, 4) {
 				u.Len = r.Range(17*184, 22*184)
+			}
+			if cfg.HugePES && !hugeDone {
+				u.PES.StreamID = 0xe0
+				u.PES.Unbounded = true
+				u.Len = r.Range(1024*184, 1500*184)
+				hugeDone = true
 			}
 			if cfg.Bias && r.Chance(1, 2) {
 				u.Biased = true
